@@ -255,3 +255,66 @@ class _NoBar:
 
     def close_out(self):
         pass
+
+
+# ----------------------------------------------------------------------------- whole metafile
+
+KIND_TOKEN = {"v1": "v1", "v1align": "v1align", "v2": "v2class", "hy": "hybridclass",
+              "a2": "asm2", "a3": "asm3"}
+
+
+def _sl(v):
+    if v is None:
+        return "_"
+    if isinstance(v, (list, tuple)):
+        return "L" + ";".join(u.encode("utf8").hex() for u in v)
+    return "S" + v.encode("utf8").hex() if v != "" else "E"
+
+
+def ask_createfull(drv, slot, kind, files, pl, single, name, raw, opts=None, block=B):
+    """Queue the Lean model of the whole creator on the same tree and options; the answer
+    must be byte-identical to the metafile the implementation wrote (`raw`)."""
+    from harness import refspec
+    opts = opts or {}
+    meta = refspec.lenient_decode(raw)
+    created = meta.get(b"created by", b"")
+    date = meta.get(b"creation date", 0)
+    toks = ["createfull", KIND_TOKEN[kind], str(block), str(pl // block), hx(created), str(date),
+            _sl(opts.get("announce")), _sl(opts.get("comment")) if opts.get("comment") else "_",
+            "1" if opts.get("private") else "0",
+            _sl(opts.get("source")) if opts.get("source") else "_",
+            _sl(opts.get("url_list")), _sl(opts.get("httpseeds")),
+            hx(name.encode("utf8")), "1" if single else "0", str(len(files))]
+    for rel, blob in files:
+        toks += [hx(rel.encode("utf8")), blob.token()]
+    drv.ask(" ".join(toks), slot)
+
+
+def settle_createfull(run, answers):
+    """answers: iterable of (slot, request, out) where slot = ("createfull", case, raw)."""
+    from harness.common import MachineryError
+    rest = []
+    for slot, req, out in answers:
+        if not (isinstance(slot, tuple) and slot and slot[0] == "createfull"):
+            rest.append((slot, req, out))
+            continue
+        _, case, raw = slot
+        run.model_checked += 1
+        if out.startswith("ERR"):
+            if "bad-op" in out or "bad-" in out:
+                raise MachineryError(f"driver: {req[:80]} -> {out[:120]}")
+            run.fail("impl-vs-model", case, {"correspondence": "Impl.create* (whole metafile)",
+                                             "model": out[:60], "impl": "wrote a metafile"})
+            continue
+        if out.strip() != hx(raw):
+            from harness import refspec
+            try:
+                a, b = refspec.lenient_decode(bytes.fromhex(out.strip())), refspec.lenient_decode(raw)
+                keys = sorted(repr(k) for k in set(a) | set(b) if a.get(k) != b.get(k))
+                ikeys = sorted(repr(k) for k in set(a.get(b"info", {})) | set(b.get(b"info", {}))
+                               if a.get(b"info", {}).get(k) != b.get(b"info", {}).get(k))
+            except Exception:
+                keys, ikeys = ["undecodable"], []
+            run.fail("impl-vs-model", case, {"correspondence": "Impl.create* (whole metafile bytes)",
+                                             "top-level keys": keys, "info keys": ikeys})
+    return rest
